@@ -183,10 +183,11 @@ def write_evidence(rep, spec, exit_violations):
         'distinct_nontrivial': len(rep.scheds),
         'rule': ('one evaluation = one simulated run (a seeded plan of events executed in a freshly forked '
                  'process image with every oracle of the property evaluated after every event); a run is '
-                 'non-trivial when at least one fault/disturbance of the kinds listed in faults_fired fired '
-                 'AND an oracle was evaluated afterwards on state created before it; distinct = distinct '
-                 'schedule signatures (sha256 over the sequence of (event kind, slot/handle state)) among '
-                 'non-trivial runs'),
+                 'non-trivial when at least one fault/disturbance of the kinds listed in faults_fired - other '
+                 'than the two caller-side ones (caller_mutates_result, caller_reuses_argument), which fire on '
+                 'nearly every query - fired AND at least one oracle was evaluated after it; distinct = '
+                 'distinct schedule signatures (sha256 over the sequence of (event kind, slot/handle state)) '
+                 'among non-trivial runs'),
         'samples': rep.samples or [{'note': 'no sample kept'}],
         'runs': rep.runs,
         'events_executed': rep.events,
@@ -205,6 +206,8 @@ def write_evidence(rep, spec, exit_violations):
         'unconfirmed_seam_candidates': rep.unconfirmed,
     }
     cov.update(rep.extra)
+    for k in getattr(rep, 'drop', ()):
+        cov.pop(k, None)
     ev = {'property_id': rep.prop, 'tier': rep.tier, 'seed': rep.seed, 'level': 'exploration',
           'coverage': cov,
           'assumptions': spec.get('assumptions', []),
@@ -259,8 +262,7 @@ def handle_violation(rep, res, props, known, confirm_real_seeds=False, siblings=
     again = run_fresh(small, props, known, hashseed=hashseed)
     if not again.get('viol') or again['viol']['sig'] != sig:
         raise core.HarnessError('minimised plan does not reproduce in a fresh interpreter')
-    os.makedirs(os.path.join(core.VERIF_DIR, 'replays'), exist_ok=True)
-    path = os.path.join(core.VERIF_DIR, 'replays', f'{rep.prop}-{rep.seed}-{plan["run"]}.json')
+    path = os.path.join(replays_dir(), f'{rep.prop}-{rep.seed}-{plan["run"]}.json')
     with open(path, 'w', encoding='utf-8') as f:
         json.dump({'property': rep.prop, 'oracle': again['viol']['oracle'], 'signature': sig,
                    'verif_seed': rep.seed, 'run': plan['run'], 'hashseed': hashseed,
@@ -307,8 +309,7 @@ def handle_address_dependent(rep, res, props, known, siblings=()):
             if chosen:
                 break
     plan, sig = res['plan'], res['viol']['sig']
-    os.makedirs(os.path.join(core.VERIF_DIR, 'replays'), exist_ok=True)
-    path = os.path.join(core.VERIF_DIR, 'replays', f'{rep.prop}-{rep.seed}-{plan["run"]}.json')
+    path = os.path.join(replays_dir(), f'{rep.prop}-{rep.seed}-{plan["run"]}.json')
     small = plan
     if chosen is not None:
         # minimise with fresh interpreters in the pinned mode (slower than forked children)
@@ -340,6 +341,16 @@ def handle_address_dependent(rep, res, props, known, siblings=()):
     rep.extra.setdefault('address_dependent_violations', []).append({'run': plan['run'], 'sig': sig,
                                                                      'pinned_mode': chosen})
     return path
+
+
+def replays_dir():
+    """Replay files of runs against a scratch tree (VERIF_REPO) go next to that tree, not into /verif."""
+    if os.path.realpath(core.REPO) != '/repo':
+        d = os.path.join(core.REPO, '.verif-replays')
+    else:
+        d = os.path.join(core.VERIF_DIR, 'replays')
+    os.makedirs(d, exist_ok=True)
+    return d
 
 
 def replay(path):
